@@ -177,9 +177,6 @@ Qed.
       rewrite ?map_set_ts_len, ?bytes_set_ts, ?secs_ms_exact by assumption; unfold qlen; rewrite ?map_length; reflexivity.
   Qed.
 
-  Lemma head_map {X Y} (f : X -> Y) (dx : X) (l : list X) : l <> [] -> hd (f dx) (map f l) = f (hd dx l).
-  Proof. destruct l; [congruence|reflexivity]. Qed.
-
   Theorem lra_stage f d v rows :
     consistent rows -> nonneg rows -> 0 < d -> whole_ms d -> lra_val_of f d = Some v ->
     ref_range f d (map entry_of rows) = Some (map strip (sem_lra v d rows)).
